@@ -327,6 +327,46 @@ def ob_initial(dec, path, timeout=30):
                 detail='; '.join(problems) or 'initial state = face part of the syndrome; correction starts empty and is only updated by sweep_move',
                 functions=[dict(function=f.ref, sha256_16=f.sha) for f in (gi, de)], transparent=[])
 
+# --------------------------------------------------------------------------------------- composition lemma over the contracts
+def ob_inv_lemma(timeout=30):
+    """the tracking invariant  signs(f) = faceSyndrome(e0 + bsf(correction))(f)  is inductive over the update loop of sweep_move, from the
+    CONTRACTS only (no code is read here): geom (flip set = anticommuting faces), the signs toggle of flip_edge, update/site (Z toggle of
+    the correction at the flipped edge, every other key unchanged) and bilinearity of the syndrome (C03).  Also: the correction stays
+    Z-only, the empty correction satisfies the invariant, and `not any(signs)` + invariant gives a zero face syndrome."""
+    Face = z3.DeclareSort('Face')
+    Corr = z3.DeclareSort('CorrState')                       # abstract value of the dict `correction`
+    at = z3.Function('corr_at', Corr, Loc, z3.IntSort())     # 0 = absent/I, 1 = X, 2 = Y, 3 = Z   (same coding as ob_site / ob_update)
+    syn = z3.Function('face_syndrome', Corr, Face, z3.IntSort())     # face syndrome bit of e0 + bsf(correction)
+    anti = z3.Function('anti', Loc, Face, z3.BoolSort())     # Z on the edge anticommutes with the face stabilizer
+    flip = z3.Function('flipset', Loc, Face, z3.BoolSort())  # flip_edge(edge, .) toggles signs at the face
+    s0 = z3.Function('signs_before', Face, z3.IntSort()); s1 = z3.Function('signs_after', Face, z3.IntSort())
+    c0, c1, cE = z3.Const('c0', Corr), z3.Const('c1', Corr), z3.Const('c_empty', Corr)
+    q, l = z3.Const('q', Loc), z3.Const('l', Loc); f = z3.Const('f', Face)
+    zt = lambda v: z3.If(v == 0, 3, z3.If(v == 3, 0, z3.If(v == 1, 2, 1)))          # the `want` of C10.update / C10.site[Z]
+    bit = lambda b: z3.If(b, 1, 0)
+    contracts = [
+        z3.ForAll([l, f], flip(l, f) == anti(l, f)),                                                   # C10.geom
+        z3.ForAll([f], s1(f) == (s0(f) + bit(flip(q, f))) % 2),                                        # flip_edge: toggle exactly the flip set
+        at(c1, q) == zt(at(c0, q)), z3.ForAll([l], z3.Implies(l != q, at(c1, l) == at(c0, l))),         # C10.update (site toggle + frame)
+        # C03 bilinearity: changing the correction by Z on one edge changes each face bit by anti(edge, face)
+        z3.ForAll([f], z3.Implies(z3.And(at(c0, q) == 0, at(c1, q) == 3), syn(c1, f) == (syn(c0, f) + bit(anti(q, f))) % 2)),
+        z3.ForAll([f], z3.Implies(z3.And(at(c0, q) == 3, at(c1, q) == 0), syn(c1, f) == (syn(c0, f) + bit(anti(q, f))) % 2)),
+        z3.ForAll([f], z3.And(s0(f) >= 0, s0(f) <= 1, syn(c0, f) >= 0, syn(c0, f) <= 1)),
+    ]
+    inv0 = [z3.ForAll([f], s0(f) == syn(c0, f)), z3.ForAll([l], z3.Or(at(c0, l) == 0, at(c0, l) == 3))]
+    bad = z3.Or(s1(f) != syn(c1, f), z3.And(at(c1, l) != 0, at(c1, l) != 3))
+    r = check(contracts + inv0 + [bad], timeout)
+    cov = check(contracts + inv0 + [anti(q, f), at(c0, q) == 3], 10, fallbacks=False)['verdict']
+    # exit: no excitation tracked + invariant => zero face syndrome
+    r2 = check(inv0 + [z3.ForAll([f], s0(f) == 0), syn(c0, f) != 0], timeout)
+    if r['verdict'] == 'unsat' and r2['verdict'] != 'unsat':
+        r = r2
+    out = result('inv', r, [], None, contracts + inv0 + [bad], detail='inductive step + Z-only + exit; hypotheses satisfiable with a re-flipped anticommuting edge: %s' % cov)
+    out['kind'] = 'lemma'
+    if cov != 'sat' and out['verdict'] == 'discharged':
+        out['verdict'] = 'refuted'; out['detail'] = 'vacuous'
+    return out
+
 
 def obligations(tier):
     to = 200 if tier == 'quick' else 900
@@ -338,6 +378,7 @@ def obligations(tier):
     for dec, path in (('SweepDecoder3D', SW), ('RotatedSweepDecoder3D', RS)):
         obs.append(Ob('C10.update[%s]' % dec, ob_update, dict(dec=dec, path=path), timeout=30, kind='state'))
         obs.append(Ob('C10.initial[%s]' % dec, ob_initial, dict(dec=dec, path=path), timeout=30, kind='state'))
+    obs.append(Ob('C10.inv[lemma]', ob_inv_lemma, dict(), timeout=30, kind='lemma'))
     return obs
 
 
